@@ -44,6 +44,14 @@ CLAIMED = {
             "Generated-input search over keyword call sites (required/defaulted/missing/unknown/mistyped keys, with positionals); every permutation of the keyword arguments must give byte-identical -i output. Exploration.",
             "One call site per program so inference order is fixed.",
             "DESIGN.md §4 C14"),
+    "C05": ("property-based testing (Hypothesis: corpus, generated and tie-rich programs x all output modes), repeated-run differential on the real binary in fresh processes with varied GOMAXPROCS/GOGC",
+            "Generated-input search over (program, mode) pairs, each run k times (4 quick / 8 thorough) in separate processes; any byte difference (line-order-insensitive for --define) is a violation. Exploration: schedules and map orders are sampled by repetition, the residual miss probability (1-p)^(k-1) is stated in the evidence rule.",
+            "The harness cannot own Go's map-iteration seed; it samples it. Runs entirely on the guard-off binary.",
+            "DESIGN.md §4 C05"),
+    "C18": ("property-based testing (Hypothesis: generated and corpus programs x 1-3 top-level split points); metamorphic relation (preload == hidden prefix)",
+            "Generated-input search over (program, split points); the target analysed with .ti-loader.json preloads must print exactly the records the concatenation prints for the target's rows (rebased), and never mention a preload file. Exploration.",
+            "Split points are exact for generated programs and conservative (keyword-depth filter) for corpus programs.",
+            "DESIGN.md §4 C18"),
 }
 
 PENDING_REASON = "check not built yet in this round (planned in DESIGN.md §3.11); no claim is made"
